@@ -570,6 +570,24 @@ func c12OCRACases(c *Ctx, emit func(c12OCRACase)) {
 			emit(k)
 		}
 	}
+	// parsed, unregistered suite strings across the grammar (explicit session widths, every time-step unit, all hashes)
+	seen := map[string]bool{}
+	for tries := 0; len(seen) < c.N(120, 1500) && tries < 100000; tries++ {
+		n := genSuiteName(rng)
+		m, ok := ref.ParseSuiteName(n)
+		if !ok || !ref.SuiteUsable(m) || seen[n] {
+			continue
+		}
+		seen[n] = true
+		for v := 0; v < c.N(6, 12); v++ {
+			k := c12OCRACase{Base: ocraCase{KeyHex: hexs([]byte("12345678901234567890")), Secret: "GEZDGNBVGY3TQOJQGEZDGNBVGY3TQOJQ", Via: viaRaw, Suite: ref.Suite{Raw: n}, Input: inputToJ(admissibleInput(rng, m, v+rng.Intn(12)))}}
+			for f := 0; f < 5; f++ {
+				k.Shapes[f] = 1 + (v+f)%2
+				k.Spare[f] = gen.Pick(rng, []int{1, 8, 64, 120, 128, 200, 512, 1024})
+			}
+			emit(k)
+		}
+	}
 }
 
 func c12Main(c *Ctx) {
